@@ -25,6 +25,38 @@ CLAIMED = {
          "3 (4 thorough) over a 17-symbol alphabet on the real StoreBuilder with behavioural probes of the built store.",
          "5 C17", "Coq proof over the builder model + exhaustive differential call chains (engine S)"),
 }
+CLAIMED.update({
+ "C01": ("Coq: the reducer chain of one action (threading, once each, result written whether Dispatch or Keep) for any "
+         "reducers/middlewares; in every reachable world of the interleaving model (any programs, threads, capacity, "
+         "schedule) the state is the latest write-back and under BlockOnFull enqueued = taken ++ queued as lists. "
+         "Partial: the fold over the whole taken sequence is not yet a theorem over histories; it is decided by the "
+         "lockstep correspondence (engine L) and the C01 monitor on every observed history.", "5 C01",
+         "Coq invariants over the interleaving model + lockstep schedule replay (engine L) + history monitor"),
+ "C02": ("Coq: for every policy and schedule what the reducer takes is an in-order subsequence of what entered the "
+         "queue; sends append at the tail, recv takes the head. Partial: Inv < Enq < Ret per call is a step-level fact of "
+         "the model checked by engine L (all three entry points, thunks), not yet a theorem over histories.", "5 C02",
+         "Coq FIFO invariant + lockstep schedule replay (engine L) + order monitor"),
+ "C03": ("Coq: per action, subscribers are called iff the last reducer said Dispatch and no before_dispatch hook said "
+         "Done, each once, in registration order, with the new state. Partial: the stream over a run is decided by "
+         "engine L and the C03 monitor.", "5 C03", "Coq pure theorem + lockstep schedule replay (engine L) + stream monitor"),
+ "C05": ("Coq: in every reachable world every queue holds at most its capacity; under BlockOnFull nothing is dropped "
+         "and enqueued = taken ++ queued; the blocking send is enabled iff there is room and becomes enabled by a recv. "
+         "Engine L probes that a send on a full queue does not return and resumes after the reducer's recv. Liveness "
+         "('eventually reduced') is enabledness in the model; OS wake-ups are trusted.", "5 C05",
+         "Coq invariants (bound, losslessness) + lockstep replay with blocking probes (engine L)"),
+ "C06": ("Coq: drop policies never wait (every phase enabled); one send keeps lastn/firstn capacity; in every reachable "
+         "world enqueued is a permutation of taken + evicted + queued and taken is an in-order subsequence. Engine L "
+         "schedules the reducer between the DropOldest phases; the C06 monitor checks conservation and Err-iff-dropped.",
+         "5 C06", "Coq conservation invariant + lockstep schedule replay (engine L) + conservation monitor"),
+ "C07": ("Coq: the callback order of one action in closed form (BR* R* BE* BD* N*), every reducer once in registration "
+         "order. Partial: non-overlap of consecutive actions holds by construction of the single reducer thread of the "
+         "model; decided by engine L (runtime registration from other threads) and the C07 monitor.", "5 C07",
+         "Coq pure theorem + lockstep schedule replay (engine L) + phase monitor"),
+ "C08": ("Coq: in every reachable world the state is the latest write-back and every returned get_state returned the "
+         "latest write-back before its return (reads_ok over the whole history); write-backs only grow. Engine L places "
+         "readers between every pair of reducer steps.", "5 C08",
+         "Coq history invariant + lockstep schedule replay (engine L) + read monitor"),
+})
 REASON_TODO = "check not built yet in this revision (planned: see DESIGN.md section 5)"
 
 props = [json.loads(l) for l in open(os.path.join(ROOT, "properties.jsonl"))]
